@@ -6,7 +6,14 @@ from excel2pycl.src.tokens import EntryPointToken
 class AstBuilder:
     @classmethod
     def parse(cls, expression: list, in_cell: Cell):
-        token, unparsed_tokens = EntryPointToken.get(expression, in_cell)
+        # every sub-expression handed to a token class is a tail of `expression`: one memo per formula is enough
+        if in_cell is not None:
+            in_cell._parse_memo = {}
+        try:
+            token, unparsed_tokens = EntryPointToken.get(expression, in_cell)
+        finally:
+            if in_cell is not None:
+                del in_cell._parse_memo
         if token is None or unparsed_tokens:
             # a formula is translated as a whole or not at all
             raise E2PyclParserException(f'Formula has an incorrect structure in {in_cell}', unparsed_tokens)
